@@ -1160,7 +1160,7 @@ def analyse(case, obs):
 
 class C04(Prop):
     id = "C04"
-    props_file = ["Props/C04.v", "Props/C04_Bridge.v", "Props/C04_Examples.v", "Props/C04_Examples_Bridge.v"]
+    props_file = ["Props/C04.v", "Props/C04_Bridge.v", "Props/C04_BridgeResume.v", "Props/C04_Examples.v", "Props/C04_Examples_Bridge.v"]
     coq_imports = kc.COQ_IMPORTS
     n_quick = 600
     n_thorough = 15000
@@ -1173,7 +1173,7 @@ class C04(Prop):
                        "ignore/retry/re-wait/elsewhere/return/raise/propagate, bursts, self, spawn-then-interrupt, module-level "
                        "interrupts, shared and failing targets with co-waiters; dyadic delays; non-trivial = at least one "
                        "interrupt() call on a process and at least 5 processed events; distinct by hash of the case")
-    trusted_base = ["vlib/translate.py (Python ast, fail closed; observation/effect tables in props/kernel_tie.py) regenerates coq/Gen/Extracted_kernel.v from the kernel leaves of the tree under test (Environment.schedule/peek/step, Event.succeed/fail/defused, Timeout/Initialize/Interruption.__init__, Interruption._interrupt, Process.interrupt) before every build; the C04_gen_* theorems (Props/C04_Bridge.v) bridge them to Kernel/Model.v; step()'s heappop try/except, its callback loop and peek()'s try/except are whitelisted as one statement each; Process._resume is not translated",
+    trusted_base = ["vlib/translate.py (Python ast, fail closed; observation/effect tables in props/kernel_tie.py) regenerates coq/Gen/Extracted_kernel.v from the kernel leaves of the tree under test (Environment.schedule/peek/step, Event.succeed/fail/defused, Timeout/Initialize/Interruption.__init__, Interruption._interrupt, Process.interrupt) before every build; the C04_gen_* theorems (Props/C04_Bridge.v) bridge them to Kernel/Model.v; step()'s heappop try/except, its callback loop and peek()'s try/except are whitelisted as one statement each; ONE iteration of the loop of Process._resume is translated (coq/Gen/Extracted_resume.v, C04_gen_resume in Props/C04_BridgeResume.v: the handlers of the send/throw try are translated, the second try statement is one whitelisted statement)",
                     "kernel harness props/kernel_common.py: real generators on the real Environment; env.schedule/env.step wrapped "
                     "as instance attributes (no change in /repo); events named by creation index",
                     "props/c04.py IHarness: monitor-only record of interrupt() calls, generator start/end (a `yield from` wrapper "
@@ -1196,6 +1196,7 @@ class C04(Prop):
         from vlib import framework as fw
         from props import kernel_tie
         kernel_tie.write_extracted_kernel(fw.REPO, fw.COQ)
+        kernel_tie.write_extracted_resume(fw.REPO, fw.COQ)
 
     def gen_case(self, rng, tier):
         r = rng.random()
